@@ -339,7 +339,7 @@ def main(argv=None):
         "property_id": prop, "tier": tier, "seed": seed, "level": "proof",
         "coverage": {
             # obligations that are listed open findings are reported under known_findings_reported, not counted here
-            "obligations": len(vcs) + n_lean - len({n for _, n in known if not n.startswith("twin:")}),
+            "obligations": len(vcs) + n_lean - len({n for _, n in known if not n.startswith("twin:")} & {v["name"] for v in vcs}),
             "discharged": len(discharged) + n_lean,
             "checker_cmd": f"bin/check {prop} --tier {tier}",
             "trusted_base": trusted + SEMANTICS,
